@@ -144,7 +144,7 @@ def checkCase (c : Case) : CaseResult := Id.run do
         let (dv, ix) := maxDev p xs
         stats := bumpStats stats ("compared." ++ v.name) 1
         if dv > tol * scale then
-          fails := fails.push s!"not-optimal variant={v.name} var={ix} impl={approx p[ix]!} optimum={approx xs[ix]!} dev={approx dv} tol={approx (tol * scale)} {diagnose c xs q v p scale}"
+          fails := fails.push s!"not-optimal variant={v.name} n={n} m={m} scaled={if s.any (· != 1) then 1 else 0} var={ix} impl={approx p[ix]!} optimum={approx xs[ix]!} dev={approx dv} tol={approx (tol * scale)} {diagnose c xs q v p scale}"
           stats := bumpStats stats ("fail." ++ v.name) 1
           continue
         if v.name == "inc" then firstPos := some p
